@@ -79,6 +79,26 @@ def same(a, b):
     return isinstance(a, T) and isinstance(b, T) and a.key() == b.key()
 
 
+class PStr:
+    """opaque non-empty passphrase given as text; only its UTF-8 encoding is used"""
+    __pyvc_symbolic__ = True
+    __pyvc_strlike__ = True
+
+    def __init__(self, name):
+        self.name = name
+
+    def __pyvc_isinstance__(self, cs):
+        return str in cs
+
+    def __pyvc_truth__(self, eng):
+        return True
+
+    def __pyvc_attr__(self, eng, name):
+        if name == 'encode':
+            return _F(lambda e, a, k: T('utf8', self.name, n=9))
+        raise Unsupported(f'str.{name} on an opaque passphrase (any transformation of the passphrase text is outside the model)')
+
+
 class KStr:
     """base58_encode(payload, prefix): text of the table row (prefix, len(payload)); C09 contracts"""
     __pyvc_symbolic__ = True
@@ -220,14 +240,16 @@ def h_roundtrip(curve, form):
                 s = e.call(e.getattr_(k0, 'secret_key'), [], dict(ed25519_seed=False))
                 k1 = e.call(e.getattr_(Key, 'from_encoded_key'), [s], {})
             else:
+                if form == 'encrypted_str':
+                    pw = PStr('passphrase')
                 s = e.call(e.getattr_(k0, 'secret_key'), [], dict(passphrase=pw))
                 k1 = e.call(e.getattr_(Key, 'from_encoded_key'), [s], dict(passphrase=pw))
         except RaiseEx as ex:
             e.check(f'Key.from_encoded_key∘export[{tag}]::safety.no_exception[{type(ex.exc).__name__}]', z3.BoolVal(False))
             return
-        want_prefix = curve + {'public': b'pk', 'plain': b'sk', 'ed64': b'sk', 'encrypted': b'esk'}[form]
+        want_prefix = curve + {'public': b'pk', 'plain': b'sk', 'ed64': b'sk', 'encrypted': b'esk', 'encrypted_str': b'esk'}[form]
         e.check(f'Key.export[{tag}]::ensures.prefix=={want_prefix.decode()}', z3.BoolVal(isinstance(s, KStr) and s.prefix == want_prefix))
-        if form == 'encrypted':
+        if form in ('encrypted', 'encrypted_str'):
             box = [x for x in log if x[0] == 'secretbox']
             kdf = [x for x in log if x[0] == 'pbkdf2']
             okb = len(box) == 1 and box[0][2] == b'\x00' * 24 and isinstance(s.payload, T) and s.payload.op == 'cat' and s.payload.args[0].op == 'var' \
@@ -251,7 +273,7 @@ def run_P(ck):
               'implementations is the bounded part\'s business')
     ck.trust('PyVC encoding of the Python subset (DESIGN.md 3.2)')
     for curve in CURVES:
-        forms = ['public', 'plain', 'encrypted'] + (['ed64'] if curve == b'ed' else [])
+        forms = ['public', 'plain', 'encrypted', 'encrypted_str'] + (['ed64'] if curve == b'ed' else [])
         for form in forms:
             eng = Engine()
             run_harness(ck, eng, h_roundtrip(curve, form), f'Key.roundtrip[{curve.decode()},{form}]')
